@@ -15,7 +15,8 @@ RULE = (
     "G-genome diploid data (1-2 samples/read groups, 1-2 contigs, SNV/indel variants, reads with 0-5% errors, single and "
     "paired) with a truth-phased VCF (PS or HP encoded, 1-3 phase sets per contig, bgzip+tabix) and a BAM enriched with "
     "secondary, supplementary, duplicate, low-MAPQ, placed and unplaced unmapped records, pre-existing HP/PS/PC tags and "
-    "(stratum) BX-tagged clouds; options: one or several ascending disjoint --regions (adjacent ones share reads), "
+    "(stratum) BX-tagged clouds; options: one or several --regions (adjacent ones share reads; given in any order, contigs too, and overlapping), a contig "
+    "whose only records are placed unmapped reads, read clouds of one barcode further apart than the linked-read cutoff, "
     "--tag-supplementary, --ignore-read-groups, --sample, --ignore-linked-read, --output-haplotag-list, BAM or CRAM output, "
     "with/without reference. Monitors: conservation differ (pysam records compared field by field as sequences with HP/PS/PC "
     "removed; with --regions exactly the records overlapping >=1 region, each once, in order); decision rule O-haplotag "
@@ -29,7 +30,6 @@ REQUIRED_COUNTERS = ["runs_ok", "records_compared", "tag_decisions_checked", "sw
 ASSUMPTIONS = [
     "when the maxima of several phase sets tie, either set's decision is accepted",
     "for BX clouds (linked reads) the read-cloud rule is recomputed (cloud = unprocessed reads of one barcode in read-set order); clouds whose evidence ties between phase sets, and everything depending on them, are not judged",
-    "overlapping or descending --regions are refused by whatshap and are outside the workload",
 ]
 WATCHDOG = {"quick": 300, "thorough": 900}
 
@@ -83,7 +83,7 @@ def build_bam(rng, sim, tmp, opts):
         if rng.random() < 0.05:
             a.mapping_quality = rng.choice([0, 5, 19])
         if opts.get("bx") and rng.random() < 0.7:
-            a.set_tag("BX", "BC%d" % rng.randint(1, 6))
+            a.set_tag("BX", "BC%d" % rng.randint(1, opts.get("bx_pool", 6)))
         if opts.get("rg_less") and rng.random() < 0.05:
             a.set_tag("RG", None)  # a read that belongs to no read group (legal SAM): no sample, so it cannot be tagged
         out_recs.append(a)
@@ -108,6 +108,15 @@ def build_bam(rng, sim, tmp, opts):
             b.cigartuples = None
             b.mapping_quality = 0
             extra.append(b)  # placed unmapped
+    if opts.get("orphan_contig") is not None:
+        # a contig whose only records are placed unmapped reads (their mapped mates were filtered out earlier)
+        for k, a in enumerate(out_recs + extra):
+            if a.reference_id == opts["orphan_contig"]:
+                if a.flag & (256 | 2048):
+                    a.query_name += "_x%d" % k  # keep the records pairwise distinct
+                a.flag = (a.flag | 4) & ~(256 | 2048)
+                a.cigartuples = None
+                a.mapping_quality = 0
     allr = out_recs + extra
     allr.sort(key=lambda x: (x.reference_id, x.reference_start))
     for k in range(rng.choice([0, 2, 5])):
@@ -149,20 +158,19 @@ def expected_records(bam_path, regions, chroms):
         for a in f.fetch(until_eof=True):
             out.append(a)
     else:
-        seen = set()
-        per = {}
+        # exactly the records overlapping >= 1 requested region, each once, in input (file) order - whatever the order in
+        # which the regions were given and whether or not they overlap
+        seen = {}
         for c, s, e in regions:
-            per.setdefault(c, []).append((s, e))
-        for c in f.references:
-            for s, e in per.get(c, []):
-                for a in f.fetch(contig=c, start=s, stop=e):
-                    # the whole record: with names recurring across samples, two different reads may share name, flag,
-                    # start and CIGAR (seen once in 50 000 runs of the thorough tier)
-                    key = a.to_string()
-                    if key in seen:
-                        continue
-                    seen.add(key)
-                    out.append(a)
+            for a in f.fetch(contig=c, start=s, stop=e):
+                # the whole record: with names recurring across samples, two different reads may share name, flag,
+                # start and CIGAR (seen once in 50 000 runs of the thorough tier)
+                seen.setdefault(a.to_string(), a)
+        order = {}
+        with pysam.AlignmentFile(bam_path) as g:
+            for i, a in enumerate(g.fetch(until_eof=True)):
+                order.setdefault(a.to_string(), i)
+        out = sorted(seen.values(), key=lambda a: order[a.to_string()])
     f.close()
     return out
 
@@ -257,6 +265,11 @@ def run_one(rng, counters):
         if nsamp == 2 and P == 2 and rng.random() < 0.5:
             p["names_per_sample"] = True  # each read group numbers its reads from 0: names recur across the samples
         opts["ploidy"] = P
+        if opts["bx"] and P == 2 and rng.random() < 0.5:
+            # read clouds further apart than the linked-read cutoff (50 kb) on one contig; with a large barcode pool some
+            # barcodes occur on reads without variants here and form a cloud only on another island
+            p.update({"n_chrom": 1, "islands": (rng.choice([2, 3]), 3000, rng.choice([51000, 70000]))})
+            opts["bx_pool"] = rng.choice([6, 30, 60])
         if P == 2:
             sim = genome.simulate(rng, tmp, p)
         else:
@@ -274,6 +287,8 @@ def run_one(rng, counters):
         vcf = os.path.join(tmp, "phased.vcf.gz")
         doc.write(vcf, compress=True)
         opts["rg_less"] = rng.random() < 0.3
+        if len(sim.chroms) > 1 and rng.random() < 0.15:
+            opts["orphan_contig"] = rng.randrange(len(sim.chroms))
         bam = build_bam(rng, sim, tmp, opts)
         if nsamp == 1 and rng.random() < 0.25:
             opts["ignore_read_groups"] = True
@@ -302,6 +317,15 @@ def run_one(rng, counters):
                     e -= rng.randint(10, 150)  # a gap between regions
                 regs.append((c, s, e))
             opts["regions"] = regs
+        if opts.get("regions") and len(opts["regions"]) > 1 and rng.random() < 0.4:
+            # the same request spelled differently: regions in another order (contigs too), and overlapping ones
+            regs = list(opts["regions"])
+            if rng.random() < 0.5:
+                c, s_, e_ = rng.choice(regs)
+                regs.append((c, max(0, s_ - rng.randint(0, 200)), e_ + rng.randint(-100, 300)))
+            rng.shuffle(regs)
+            opts["regions"] = regs
+            opts["regions_hostile"] = True
         desc = {"params": p, "options": opts}
         out = os.path.join(tmp, "out.bam")
         lst = os.path.join(tmp, "list.tsv")
@@ -310,6 +334,9 @@ def run_one(rng, counters):
         except Exception:
             tb = traceback.format_exc()
             last = tb.strip().splitlines()[-1]
+            if opts.get("regions") and "not ordered" in tb:
+                # the generated VCF is sorted: the complaint is about the order / overlap of the requested regions
+                return [{"mech": "crash:sorted-vcf-refused-as-unordered:regions", "msg": "run_haplotag raised: " + tb[-900:] + " regions %r" % (opts["regions"],)}], False, desc
             if "CommandLineError" in tb or "VcfNotSortedError" in tb:
                 counters["refused"] = counters.get("refused", 0) + 1
                 return [], False, desc
@@ -320,6 +347,12 @@ def run_one(rng, counters):
         counters["runs_ploidy_%d" % opts["ploidy"]] = counters.get("runs_ploidy_%d" % opts["ploidy"], 0) + 1
         if opts.get("regions"):
             counters["runs_with_regions"] = counters.get("runs_with_regions", 0) + 1
+        if opts.get("regions_hostile"):
+            counters["runs_with_unordered_or_overlapping_regions"] = counters.get("runs_with_unordered_or_overlapping_regions", 0) + 1
+        if opts.get("orphan_contig") is not None:
+            counters["runs_with_unmapped_only_contig"] = counters.get("runs_with_unmapped_only_contig", 0) + 1
+        if p.get("islands"):
+            counters["runs_with_distant_read_clouds"] = counters.get("runs_with_distant_read_clouds", 0) + 1
         counters["hook_reads_seen"] = counters.get("hook_reads_seen", 0) + len(cap)
         viol = []
         # ---------------- conservation
